@@ -406,6 +406,16 @@ func P2Of(x psatoken.IClaims) *psatoken.P2Claims {
 		return &t.P2Claims
 	case *extprof.ExtOwnerClaims:
 		return &t.P2Claims
+	case *extprof.ExtGroupClaims:
+		return &t.P2Claims
+	case *extprof.ExtNestedClaims:
+		return &t.P2Claims
+	case *extprof.ExtFragileClaims:
+		return &t.P2Claims
+	case *extprof.ExtStrictClaims:
+		return &t.P2Claims
+	case *extprof.ExtLaxClaims:
+		return &t.P2Claims
 	}
 	return nil
 }
